@@ -152,7 +152,7 @@ class Rolling:
         prog.append(dict(op='merge_states', accs=list(op[1])))
       else:
         prog.append(dict(op='result', acc=op[1]))
-    return dict(metric=sp['metric'], cfg=sp['cfg'], api=sp['api'], prog=prog)
+    return dict(metric=sp['metric'], cfg=sp['cfg'], api=sp['api'], prog=prog, container=sp.get('container'))
 
   @classmethod
   def run(cls, sp, ops):
@@ -218,17 +218,20 @@ class Retrieval:
     return [r for b in bs for r in b]
 
   @staticmethod
-  def native(sp, ops):
+  def native(sp, ops, impl=False):
+    # impl=True (SC11): the real code gets ONE merge_states call for every kind (ThresholdedRetrieval / MeanState /
+    # TupleMeanState through base.as_agg_fn); the model drivers of those kinds get its left fold
     prog = []
     for op in ops:
       k = op[0]
       if k == 'read':
         prog.append(['result', op[1]])
-      elif k == 'merge_states' and not (sp['kind'] == 'topk' and sp['api'] == 'aggfn'):
+      elif k == 'merge_states' and not (sp['kind'] == 'topk' and sp['api'] == 'aggfn') and not \
+          (impl and sp.get('ms_call')):
         prog += [['merge', op[1][0], j] for j in op[1][1:]]
       else:
         prog.append(list(op))
-    case = dict(kind=sp['kind'], api=sp['api'], prog=prog)
+    case = dict(kind=sp['kind'], api=sp['api'], prog=prog, container=sp.get('container'))
     if sp['kind'] == 'topk':
       case['cfg'] = sp['cfg']
     elif sp['kind'] == 'thr':
@@ -255,7 +258,7 @@ class Retrieval:
 
   @classmethod
   def run(cls, sp, ops):
-    case = cls.native(sp, ops)
+    case = cls.native(sp, ops, impl=True)
     return cls._reads(sp['kind'], case['prog'], RT.run_impl(case))
 
   @classmethod
@@ -313,7 +316,7 @@ class Text:
         prog.append(['result', op[1]])
       else:
         prog.append(list(op))
-    return dict(kind='prog', metric=sp['metric'], cfg=sp['cfg'], api=sp['api'], prog=prog)
+    return dict(kind='prog', metric=sp['metric'], cfg=sp['cfg'], api=sp['api'], prog=prog, container=sp.get('container'))
 
   @classmethod
   def run(cls, sp, ops):
@@ -446,7 +449,8 @@ class Classification:
               accs[op[1]].merge(accs[op[2]])
           elif k == 'merge_states':
             if fn:
-              accs[op[1][0]] = fn.merge_states([accs[i] for i in op[1]])
+              from harness.lib_states import pack   # sp['container']: list (default) / tuple / generator / ... (SC11)
+              accs[op[1][0]] = fn.merge_states(pack([accs[i] for i in op[1]], sp.get('container')))
             else:
               for j in op[1][1:]:
                 accs[op[1][0]].merge(accs[j])
@@ -505,6 +509,7 @@ FAMILIES = {f.name: f for f in (Classification, Retrieval, Rolling, Text)}
 
 ARMS = ['read, add, read (same accumulator)', 'read receiver, merge, read receiver', 'read operand, merge, read operand',
         'read a state, merge_states with that state FIRST, read', 'read a never-updated accumulator',
+        'read receiver, merge a FED operand, read receiver (no add in between)',
         'merge with a never-updated accumulator, read', 'read twice in a row', '>=3 reads of one accumulator',
         'api object', 'api aggfn']
 KINDS = ['classification/cm', 'classification/topk', 'classification/samplewise', 'classification/wrapper',
@@ -568,7 +573,11 @@ def arms_of(fam, sp, ops):
     elif k == 'merge':
       i, j = op[1], op[2]
       if read_since.get(i):
-        last[i] = 'merge-after-read'
+        # (SC11, seeded C11-m4) result() -> merge(non-empty other) -> result() with no add() on the receiver in between
+        if fed[j] and last.get(i) in (None, 'merge-after-read-fed'):
+          last[i] = 'merge-after-read-fed'
+        else:
+          last[i] = 'merge-after-read'
       if read_since.get(j):
         last[('operand', j)] = True
       if not fed[j] or not fed[i]:
@@ -595,14 +604,17 @@ def arms_of(fam, sp, ops):
         arms.add('read a never-updated accumulator')
       if last.get(i) == 'add-after-read':
         arms.add('read, add, read (same accumulator)')
-      if last.get(i) == 'merge-after-read':
+      if last.get(i) in ('merge-after-read', 'merge-after-read-fed'):
         arms.add('read receiver, merge, read receiver')
+      if last.get(i) == 'merge-after-read-fed':
+        arms.add('read receiver, merge a FED operand, read receiver (no add in between)')
       if last.get(i) == 'merge_states-after-read':
         arms.add('read a state, merge_states with that state FIRST, read')
       if last.pop(('operand', i), None):
         arms.add('read operand, merge, read operand')
       if last.pop(('unfed', i), None):
         arms.add('merge with a never-updated accumulator, read')
+      last.pop(i, None)
       read_since[i] = True
     prev = op
   return arms
@@ -654,6 +666,25 @@ def gen_cases_for(ctx, pid, n_quick, n_thorough):
         if sp['api'] != 'aggfn':
           ops = [['merge', op[1][0], op[1][1]] if op[0] == 'merge_states' else op for op in ops]
         yield _counted(ctx, pid, dict(t='hist', fam=fam.name, spec=sp, ops=ops))
+  # (SC11, seeded C11-m4) for EVERY kind: result() -> merge(a fed operand) -> result() with no add() in between
+  for kind in KINDS:
+    for _ in range(1 if ctx.quick else 10):
+      for _try in range(3000):
+        fam = FAMILIES[kind.split('/')[0]]
+        sp = fam.gen_spec(rng)
+        if kind_of(dict(fam=fam.name, spec=sp)) == kind:
+          break
+      else:
+        continue
+      bs = []
+      for _try in range(200):
+        b = fam.gen_batch(rng, sp)
+        if fam.name != 'classification' or CL.py_rows(b['yt']):
+          bs.append(b)
+        if len(bs) == 3:
+          break
+      if len(bs) == 3:
+        yield _counted(ctx, pid, dict(t='hist', fam=fam.name, spec=sp, ops=SEEDED_SHAPES[1](bs)))
   for _ in range(n_quick if ctx.quick else n_thorough):
     yield _counted(ctx, pid, gen_case(rng))
 
@@ -664,6 +695,8 @@ def _counted(ctx, pid, case):
   for a in arms_of(fam, case['spec'], case['ops']):
     ctx.count(f'{pid} histories arm', a)
     ctx.count(f'{pid} histories arm/{case["fam"]}', a)
+    if a == ARMS[5]:
+      ctx.count(f'{pid} histories kind with: {ARMS[5]}', kind_of(case))
   ctx.count(f'{pid} histories reads', min(sum(1 for op in case['ops'] if op[0] == 'read'), 12))
   return case
 
@@ -860,9 +893,11 @@ def _sub(pid, n_quick, n_thorough):
       missing = [a for a in ARMS if not got.get(a)]
       kinds = ctx.hist.get(f'{pid} histories kind', {})
       missing += [k for k in KINDS if not kinds.get(k)]
+      kinds = ctx.hist.get(f'{pid} histories kind with: {ARMS[5]}', {})
+      missing += [f'{k}: {ARMS[5]}' for k in KINDS if not kinds.get(k)]
       for fam in FAMILIES:
         g = ctx.hist.get(f'{pid} histories arm/{fam}', {})
-        missing += [f'{fam}: {a}' for a in ARMS[:3] if not g.get(a)]
+        missing += [f'{fam}: {a}' for a in ARMS[:3] + [ARMS[5]] if not g.get(a)]
       if missing:
         raise InfraError(f'{pid} histories: generator missed promised arms {missing}')
 
